@@ -1,0 +1,89 @@
+//go:build verif
+
+package index
+
+import (
+	"fmt"
+
+	"github.com/sourcegraph/zoekt"
+)
+
+// Verification hook (C16); not part of the normal build.
+
+// VerifRepo16 is one entry of indexData.repoMetaData with the tables derived from it at load time.
+type VerifRepo16 struct {
+	Meta         zoekt.Repository
+	Priority     float64
+	BranchNames  []string // Meta.Branches[i].Name
+	SubRepoPaths []string // indexData.subRepoPaths[i]
+}
+
+// VerifDoc16 is one document as stored: the raw table indices that index.merge / explode / addDocument read.
+type VerifDoc16 struct {
+	Repo       uint16
+	Name       []byte
+	Content    []byte
+	BranchMask uint64
+	SubRepo    uint32
+	Language   uint16
+	Category   byte // encoded category byte, 255 = shard has no category section
+	Checksum   []byte
+	Sections   []DocumentSection
+	Symbols    []*zoekt.Symbol // symbols.data(fileEndSymbol[doc]+i), nil where the shard has no metadata
+}
+
+type VerifShard16 struct {
+	Repos         []VerifRepo16
+	Docs          []VerifDoc16
+	LanguageMap   map[uint16]string
+	FormatVersion int
+}
+
+// VerifDumpShard16 exposes the tables of a loaded shard.
+func VerifDumpShard16(s zoekt.Searcher) (*VerifShard16, error) {
+	d, ok := s.(*indexData)
+	if !ok {
+		return nil, fmt.Errorf("not an *indexData: %T", s)
+	}
+	out := &VerifShard16{LanguageMap: map[uint16]string{}, FormatVersion: d.metaData.IndexFormatVersion}
+	for k, v := range d.languageMap {
+		out.LanguageMap[k] = v
+	}
+	for i := range d.repoMetaData {
+		r := VerifRepo16{Meta: d.repoMetaData[i], Priority: d.repoMetaData[i].GetPriority()}
+		for _, b := range d.repoMetaData[i].Branches {
+			r.BranchNames = append(r.BranchNames, b.Name)
+		}
+		r.SubRepoPaths = append(r.SubRepoPaths, d.subRepoPaths[i]...)
+		out.Repos = append(out.Repos, r)
+	}
+	for doc := uint32(0); int(doc) < len(d.fileBranchMasks); doc++ {
+		v := VerifDoc16{
+			Repo:       d.repos[doc],
+			Name:       append([]byte(nil), d.fileName(doc)...),
+			BranchMask: d.fileBranchMasks[doc],
+			SubRepo:    d.subRepos[doc],
+			Language:   d.getLanguage(doc),
+			Category:   255,
+			Checksum:   append([]byte(nil), d.getChecksum(doc)...),
+		}
+		if len(d.categories) > 0 {
+			v.Category = d.categories[doc]
+		}
+		c, err := d.readContents(doc)
+		if err != nil {
+			return nil, err
+		}
+		v.Content = append([]byte(nil), c...)
+		secs, _, err := d.readDocSections(doc, nil)
+		if err != nil {
+			return nil, err
+		}
+		v.Sections = append([]DocumentSection(nil), secs...)
+		for i := range secs {
+			v.Symbols = append(v.Symbols, d.symbols.data(d.fileEndSymbol[doc]+uint32(i)))
+		}
+		out.Docs = append(out.Docs, v)
+	}
+	return out, nil
+}
